@@ -4,7 +4,7 @@
     local validator's own prevote / precommit / proposed header.
 
     - [mreachable_a]: the admissible closure.  Side conditions ([mop_adm]): for a kernel operation those of
-      [reachable_g] ([xwf]); for the state machine's own proposed header the BOOLEAN [lph_okb] (the kernel
+      [reachable_g] ([xwf]); for the state machine's own proposed header, when the kernel files it, the BOOLEAN [lph_okb] (the kernel
       files that header without any of the checks of HandleProposedHeader, so what those checks establish
       has to be assumed of the state machine); nothing for entrances, reads and local votes.
     - [mreachable_a_K]: K (INV, pok, the store invariant and the view / store correspondence) and tinv hold
@@ -18,7 +18,7 @@ From GV Require Import Base.Ints Gen.Math Gen.Kernel Model.Mirror Model.MirrorMg
   Proofs.MirrorTotal Proofs.MirrorAct Proofs.MirrorActInv Proofs.MirrorActTotal
   Proofs.MirrorResumeWit Proofs.MirrorResumeLoad Proofs.MirrorResumeRT Proofs.MirrorResumeInv
   Proofs.MirrorResumeOps Proofs.MirrorResumeOps2 Proofs.MirrorResumeOps4 Proofs.MirrorResume
-  Proofs.MirrorTotalX.
+  Proofs.MirrorTotalX Proofs.MirrorTotalK.
 (* Proofs.MirrorResumeRT has a helper that is also called [mstep]: the model's name must win *)
 Import Model.MirrorMgr.
 Import ListNotations.
@@ -41,8 +41,11 @@ Definition lph_okb (k : kstate) (p : ph) : bool :=
   (pow_okb (hd_vals x) || negb (hd_height x =? v_h (k_vot k))) &&
   (match vs_keys (hd_next x) with [] => false | _ :: _ => true end).
 
+(** asked only of a header that the kernel FILES ([act_ph_applies], Proofs/MirrorTotalK.v: its height and round
+    are those of one of the three views and the view holds no header with the same signature); a header that
+    is dropped leaves the kernel state as it was *)
 Definition lact_okb (k : kstate) (a : lact) : bool :=
-  match a with ActPH p => lph_okb k p | _ => true end.
+  match a with ActPH p => negb (act_ph_applies k p) || lph_okb k p | _ => true end.
 
 Lemma lph_okb_facts k p : lph_okb k p = true ->
   accept_facts k p /\ pow_ok (hd_next (ph_hdr p)) /\
@@ -64,8 +67,6 @@ Proof.
   - destruct (vs_keys (hd_next (ph_hdr p))); [discriminate|discriminate].
 Qed.
 
-Lemma lact_okb_lact_ok k a : lact_okb k a = true -> lact_ok k a.
-Proof. destruct a as [t sg|t sg|p]; cbn; try (intros _; exact I). intros H. exact (proj1 (lph_okb_facts k p H)). Qed.
 
 (** * Local actions keep K and tinv *)
 
@@ -143,7 +144,9 @@ Proof.
   destruct a as [t sg|t sg|p]; cbn [act_step lact_okb]; intros HK HT Hok.
   - apply K_act_vote; [left; reflexivity|exact HK|exact HT].
   - apply K_act_vote; [right; reflexivity|exact HK|exact HT].
-  - apply K_act_ph; assumption.
+  - apply orb_true_iff in Hok as [Hno|Hok]; [|apply K_act_ph; assumption].
+    intros Ha. pose proof (local_ph_effect s p s' Ha) as E.
+    destruct (act_ph_applies s p); [discriminate|]. subst s'. split; assumption.
 Qed.
 
 (** * What each operation does to the kernel state *)
@@ -573,4 +576,16 @@ Proof.
   - destruct a as [t sg|t sg|p]; cbn [act_panic_site]; [apply Av|apply Av|].
     unfold act_ph_panic_site. destruct (hd_hash _); [|discriminate].
     intros E1; inversion E1. do 6 right. left. reflexivity.
+Qed.
+
+(** Ok, or one of the named sites - nothing else *)
+Corollary mstep_ok_or_named_site ih ivs s o :
+  1 <= ih -> vwf ivs -> mreachable_a ih ivs s -> crash_adm s o ->
+  (mstep_panic_site s o = None /\ exists s' r io, mstep s o = Ok (s', r, io)) \/
+  (exists site, mstep_panic_site s o = Some site /\ mstep s o = Panic site /\ In site named_sites).
+Proof.
+  intros Hih Hivs Hr Hc. pose proof (mstep_total ih ivs s o Hih Hivs Hr) as H.
+  destruct (mstep_panic_site s o) as [site|] eqn:E.
+  - right. exists site. split; [reflexivity|]. split; [exact H|]. eapply mstep_panic_site_named. exact E.
+  - left. split; [reflexivity|exact (H Hc)].
 Qed.
